@@ -264,3 +264,126 @@ Example C06_laid_guards_nonvacuous :
   in_fragment P = true /\ tb_shape P = true /\ laid_b 1000%Z P = true /\
   forallb (fun s => classA_ok (bind_file P) (s_name s)) (bind_file P) = true.
 Proof. vm_compute. repeat split; reflexivity. Qed.
+
+(* ================================================================== composition (agent c12-compose)
+   Proofs/ComposeBind.v, ComposeBindText.v, ComposeBindRun.v: the C05 hypotheses of C06_refs_local_laid_partial are
+   discharged with C05_define_local_partial, and the result is lifted to whole requests over file bytes.  Guards (all
+   boolean):
+     bind_guard W P            = in_fragment P && laid2_b W P && no_repoint P: the guard of C05 alone (tb_shape
+                                 and laid_b W follow: C06_laid2_implies_laid, C06_fragment_shape_is_tb_shape);
+     occ_guard P o             = classB_ok o && classA_ok (bind_file P) (s_name o);
+     occ_request_guard W files f o : file f of the workspace parses, its chunk satisfies bind_guard, the occurrence o
+                                 under the cursor satisfies occ_guard and stands in the TEXT at its Loc (ident_at: the
+                                 bytes at the Loc spell the name, a non-identifier byte follows, and GetBeforeIndex
+                                 stops in front of it: start of text, a byte outside [A-Za-z0-9_.:)] or `..`);
+     request_guard W files f   : the same for every occurrence of the file (implies occ_request_guard for each).
+   Missing for the full statement C06_refs_full: globals, the refuted classes, and ident_at as a consequence of the
+   lexer (it is a checked guard here, not derived from C04). *)
+From LH Require Import Proofs.PositionBindWitness Proofs.PositionBindBase Proofs.ComposeBindLaid Proofs.ComposeBind Proofs.ComposeBindText Proofs.ComposeBindRun.
+
+(* the guards of the two resolver theorems compared: Laid2 (marks with the empty if-branches) implies Laid, and the
+   fragment with C05's parser shape has C06's parser shape *)
+Theorem C06_laid2_implies_laid : forall W P, laid2_b W P = true -> laid_b W P = true.
+Proof. exact laid2_laid. Qed.
+Print Assumptions C06_laid2_implies_laid.
+
+Theorem C06_fragment_shape_is_tb_shape : forall P, in_fragment P = true -> shape_ok P = true -> tb_shape P = true.
+Proof. exact frag_shape_tb_shape. Qed.
+Print Assumptions C06_fragment_shape_is_tb_shape.
+
+(* model level: at every cursor column of an occurrence that Lua binds to a local declaration, references_at answers
+   exactly (as a set, without repetition) the binder's occurrences of that variable; no hypothesis about resolve_at left *)
+Theorem C06_refs_local_closed_model : forall W P w f o d col,
+  bind_guard W P = true -> In o (bind_file P) -> occ_guard P o = true -> s_bind o = BLocal d ->
+  (sc (s_loc o) <= col <= ec (s_loc o))%Z ->
+  exists l, references_at MRefs w f (analyse P) (s_name o) (sl (s_loc o)) col = Some l /\
+            (forall x, In x l <-> In x (spec_refs [(f, bind_file P)] f o)) /\
+            NoDup l /\ NoDup (spec_refs [(f, bind_file P)] f o).
+Proof. exact (refs_local_closed MRefs). Qed.
+Print Assumptions C06_refs_local_closed_model.
+
+(* the text side, for ALL texts: at every cursor column of an identifier that stands in the text (ident_at), the
+   request is about that identifier (OffsetForPosition + GetVarStruct) *)
+Theorem C06_request_name_on_identifier : forall bs l name (col : N) docend,
+  ident_at bs l name = true -> (sc l <= Z.of_N col <= ec l)%Z ->
+  request_name bs (line0_of l) col docend = Some (Some name).
+Proof. exact request_name_at. Qed.
+Print Assumptions C06_request_name_on_identifier.
+
+(* request level = the statement of C06_refs_full restricted to local variables and the guard: any workspace, any file
+   f of it, any cursor on an occurrence o that Lua binds to a local declaration d; the guard constrains the chunk and
+   the occurrence under the cursor only *)
+Theorem C06_refs_local_partial_closed : forall W files f line col o d l,
+  occ_request_guard W files f o = true -> spec_occ files f line col = Some o -> s_bind o = BLocal d ->
+  run_refs files MRefs f line col = ALocs l -> same_locs l (spec_refs (spec_ws files) f o) = true.
+Proof. exact (refs_request_closed_occ MRefs). Qed.
+Print Assumptions C06_refs_local_partial_closed.
+
+(* ... and the request is answered (never ASkip) *)
+Theorem C06_refs_local_answers : forall W files f line col o d,
+  occ_request_guard W files f o = true -> spec_occ files f line col = Some o -> s_bind o = BLocal d ->
+  exists l, run_refs files MRefs f line col = ALocs l /\ forall x, In x l <-> In x (spec_refs (spec_ws files) f o).
+Proof. exact (refs_request_answers_occ MRefs). Qed.
+Print Assumptions C06_refs_local_answers.
+
+(* whole-file guard *)
+Theorem C06_refs_local_partial_closed_file : forall W files f line col o d l,
+  request_guard W files f = true -> spec_occ files f line col = Some o -> s_bind o = BLocal d ->
+  run_refs files MRefs f line col = ALocs l -> same_locs l (spec_refs (spec_ws files) f o) = true.
+Proof. exact (refs_request_closed MRefs). Qed.
+Print Assumptions C06_refs_local_partial_closed_file.
+
+(* non-vacuity: C05's two example programs satisfy the whole-file guard (alone and in a two-file workspace): 25 of 33
+   and 36 of 43 occurrences are bound to locals; the guard rejects the witness programs of classes B1, B4, doc_end;
+   in the B1 program `local x = 1 / local x = x + 1` the per-cursor guard holds on the first declaration (references
+   from there are right: the traversal resolver is not affected by B1) and fails on the tagged use in `x + 1` *)
+Definition C06_cursor_guard (W : Z) (files : list (list N * list N)) (f : list N) (line col : N) : bool :=
+  match spec_occ files f line col with Some o => occ_request_guard W files f o | None => false end.
+Example C06_closed_guard_nonvacuous :
+  request_guard 1000 [(a_lua, src_ok)] a_lua = true /\ request_guard 1000 [(a_lua, src_core)] a_lua = true /\
+  request_guard 1000 [(a_lua, src_ok); (b_lua, src_core)] b_lua = true /\
+  length (filter (fun s => match s_bind s with BLocal _ => true | BGlobal _ => false end) (bind_file (chunk_of src_core))) = 36%nat /\
+  request_guard 1000 [(a_lua, src_init_shadow)] a_lua = false /\ request_guard 1000 [(a_lua, src_forward_decl)] a_lua = false /\
+  request_guard 1000 [(a_lua, src_doc_end)] a_lua = false /\
+  C06_cursor_guard 1000 [(a_lua, src_init_shadow)] a_lua 0 6 = true /\
+  C06_cursor_guard 1000 [(a_lua, src_init_shadow)] a_lua 1 10 = false.
+Proof. vm_compute. repeat split; reflexivity. Qed.
+
+(* ================================================================== wide fragment (agent wide-fragment)
+   see the block of the same name in Properties/C05.v.  References of `_G.name` and of plain names inside tables /
+   index / method expressions: new request model references_at_wide (ResolveWide.v), = references_at when the
+   identifier is not written `_G.name`; decided on wide programs by the leg c06.wide. *)
+From LH Require Import Model.ResolveWide Spec.LuaScopeWide Proofs.WideNarrow Proofs.WideRun.
+
+Theorem C06_wide_refs_narrow : forall mode w f fi n line col,
+  references_at_wide mode false w f fi n line col = references_at mode w f fi n line col.
+Proof. exact references_at_wide_narrow. Qed.
+Print Assumptions C06_wide_refs_narrow.
+
+Theorem C06_wide_run_refs_narrow : forall files mode f line0 col,
+  all_in_fragment files = true -> all_text_ok files = true ->
+  answers_agree (run_refs_wide files mode f line0 col) (run_refs files mode f line0 col).
+Proof. exact run_refs_wide_narrow. Qed.
+Print Assumptions C06_wide_run_refs_narrow.
+
+(* a `_G.x` occurrence (read: use_g, write: assign_g) is logged without a local resolution, and such an occurrence is
+   never counted among the references of a local variable - whatever local x is in scope there *)
+Theorem C06_G_read_logged_global : forall x xl st,
+  t_frames (use_g x xl st) = t_frames st /\ t_globals (use_g x xl st) = t_globals st /\
+  exists o, t_occs (use_g x xl st) = o :: t_occs st /\ o_name o = x /\ o_loc o = xl /\ o_res o = None /\ o_kind o = OUse.
+Proof. exact use_g_global. Qed.
+Print Assumptions C06_G_read_logged_global.
+
+Theorem C06_G_occ_not_local_reference : forall n d o, o_res o = None -> occ_matches_local n d o = false.
+Proof. exact g_occ_not_local_ref. Qed.
+Print Assumptions C06_G_occ_not_local_reference.
+
+(* witness (program of C05_wide_witness): the references of the global asked on `_G.x` are the three `_G.x`, those of
+   the local asked on a plain x inside the call are its declaration and the five plain uses *)
+Example C06_wide_witness :
+  ans_is (run_refs_wide w_wide MRefs a_lua 2 7)
+         [g_def; (a_lua, mk_loc 3 7 3 8); (a_lua, mk_loc 5 30 5 31)] = true /\
+  ans_is (run_refs_wide w_wide MRefs a_lua 2 10)
+         [l_def; (a_lua, mk_loc 3 10 3 11); (a_lua, mk_loc 3 15 3 16); (a_lua, mk_loc 3 22 3 23);
+          (a_lua, mk_loc 3 36 3 37); (a_lua, mk_loc 4 27 4 28)] = true.
+Proof. vm_compute. split; reflexivity. Qed.
